@@ -16,6 +16,7 @@ func init() {
 var vIndepSpecs = []string{"[-a] [-o] X...", "[OPTIONS] X [Y]", "(-o X)... | -ab", "X... Y", "-a -b | [-o...] X", "[-ab | -o] X"}
 
 func H_indep() {
+	vUseNames(vParamInt("names"))
 	sa := vIndepSpecs[vParamInt("specA")]
 	sb := vIndepSpecs[vParamInt("specB")]
 	mode := vParamString("mode")
